@@ -214,7 +214,7 @@ def eval_groups(run: Run, name: str, groups: list) -> int:
             texts.append(t)
             owner.append(g)
     try:
-        outs = coq_eval_many(name, texts)
+        outs = coq_eval_many(name, texts, timeout=1500)
     except BrokenTie as e:
         run.add_broken(e.obligation, e.detail)
         return 0
@@ -453,6 +453,8 @@ def send_case(play: dict, conn_kind: str, obf: bool, path: str, items: list) -> 
             if path == 'send_message':
                 for o in objs:
                     await conn.send_message(o)
+            elif path == 'gather_send_message':      # what Network.send_peer_messages does with several messages
+                await asyncio.gather(*[conn.send_message(o) for o in objs])
             elif path == 'queue_message':
                 await asyncio.gather(*[conn.queue_message(o) for o in objs])
             else:
@@ -486,26 +488,55 @@ def send_case(play: dict, conn_kind: str, obf: bool, path: str, items: list) -> 
         vloop.close_loop(loop)
 
 
+def big_message(rng, play: dict, tbl: list, size: int):
+    """An in-domain message of the table whose first mandatory string / blob field is inflated so that the
+    serialised frame exceeds `size` bytes (-> (message, vals)); None when the table has no such class."""
+    cands = [m for m in tbl if any(f['type'] in ('string', 'bytearr') and f['cond'] is None and not f['optional'] for f in m['fields'])]
+    if not cands:
+        return None
+    m = rng.choice(cands)
+    vals = L.gen_message(rng, play, m, 'full')
+    for i, f in enumerate(m['fields']):
+        if f['cond'] is None and not f['optional'] and f['type'] == 'string':
+            vals[i] = ''.join(rng.choice('abcdefgh \u00e9') for _ in range(50)) * (size // 50 + 1)
+            break
+        if f['cond'] is None and not f['optional'] and f['type'] == 'bytearr':
+            vals[i] = {'hex': bytes(rng.randrange(256) for _ in range(250)).hex() * (size // 250 + 1)}
+            break
+    return m, vals
+
+
 def send_path_cases(run: Run, play: dict, n_random: int) -> list:
     out = []
     combos = [('peer', False), ('peer', True), ('init', True), ('init', False), ('server', False), ('server', True), ('distributed', False)]
     for conn_kind, obf in combos:
         fam, d = SEND_TABLES[conn_kind]
         tbl = [m for m in play['messages'] if m['family'] == fam and m['dir'] == d and not m['compressed']]
-        for path in ('send_message', 'queue_message', 'queue_messages'):
-            for k in ([1, 3] + [run.rng.choice([2, 4, 5]) for _ in range(n_random)]):
+        plan = [(path, k, None) for path in ('send_message', 'queue_message', 'queue_messages', 'gather_send_message')
+                for k in ([1, 3] + [run.rng.choice([2, 4, 5]) for _ in range(n_random)])]
+        # frames larger than 64 KiB next to small ones, sent concurrently (one task / coroutine per message) while
+        # drain() yields to the loop: a frame must reach the transport in one piece
+        plan += [(path, 3, pos) for path, pos in (('gather_send_message', 0), ('queue_messages', 0), ('queue_message', 1), ('send_message', 1))]
+        for path, k, bigpos in plan:
+            if True:
                 items = []
-                for _ in range(k):
+                for i in range(k):
                     m = run.rng.choice(tbl)
                     items.append((m, L.gen_message(run.rng, play, m, run.rng.choice(['full', 'mixed', 'nonascii']))))
+                if bigpos is not None:
+                    bm = big_message(run.rng, play, tbl, run.rng.choice([65537, 70000, 140000, 200000]))
+                    if bm is None:
+                        continue
+                    items[bigpos] = bm
                 r = send_case(play, 'peer' if conn_kind == 'init' else conn_kind, obf, path, items)
                 r['table'] = (fam, d)
-                run.case({'send': [conn_kind, obf, path, r['items']]}, nontrivial=k > 1, kind=f'send-path/{path}/{"obf" if obf else "plain"}')
+                run.case({'send': [conn_kind, obf, path, r['items'] if bigpos is None else [n for n, _ in r['items']], len(r['wire'] or b'')]}, nontrivial=k > 1, kind=f'send-path/{path}/{"obf" if obf else "plain"}')
                 if r['problems']:
                     run.add_finding(Finding(f'send-path:{path}:{"obfuscated" if obf else "plain"}',
                                             f'{path} of {k} message(s) on a{"n obfuscated" if obf else " plain"} {conn_kind} connection: {r["problems"][0]}',
                                             {'kind': 'send-path', 'conn': r['conn'], 'obf': obf, 'path': path, 'table': [fam, d],
                                              'messages': [[n, v] for n, v in r['items']]},
+                                            expected='every message in one contiguous frame, in order',
                                             observed=r['wire'].hex()[:600] if r['wire'] else None))
                 out.append(r)
     return out
@@ -516,8 +547,8 @@ def coq_send_cases(cases: list, cur: dict) -> list:
     cm = L.msg_by_name(cur)
     rows = []
     for i, r in enumerate(cases):
-        if r['wire'] is None or any(n not in cm for n, _ in r['items']):
-            continue
+        if r['wire'] is None or len(r['wire']) > 20000 or any(n not in cm for n, _ in r['items']):
+            continue     # (frames > 64 KiB: judged by the independent receiver only)
         fam, d = r['table']
         exp = '; '.join(f'("{n}"%string, {L.coq_msg(cur, cm[n], v)})' for n, v in r['items'])
         rows.append(f' ({i}%nat, ({"true" if r["eff_obf"] else "false"}, ({L.FAMILY_COQ[fam]}, {"DRequest" if d == "request" else "DResponse"}), '
